@@ -189,6 +189,50 @@ fn eval(a: &[String]) -> String {
       }
       out
     }
+    "almanac_scan" => {
+      // native confirmation of an engine-B counterexample: scan real days (and hours) for a violation of the rule of the
+      // given kind; prints the first offender or NONE.  kinds: 0 duty, 1 day spirit, 2 lunar-hour spirit, 3 instant-level hour
+      // spirit, 4 mansion (lunar route), 5 mansion (sexagenary-day route), 6 moon phase, 7 minor Ren month, 8 minor Ren day,
+      // 9 month nine star
+      use tyme4rs::tyme::lunar::LunarHour;
+      let md = |a: i64, n: i64| a.rem_euclid(n);
+      let qinglong = |b: i64| -> i64 { [8, 10, 0, 2, 4, 6][(b % 6) as usize] };
+      let mut day = SolarDay::from_ymd(2000, 1, 1);
+      let mut out = "NONE".to_string();
+      'scan: for _ in 0..900 {
+        let n = (day.get_julian_day().get_day() + 0.5) as i64;  // day number of the civil day: floor(JD + 0.5)
+        let l = day.get_lunar_day();
+        let sc = day.get_sixty_cycle_day();
+        let dp = (n + 49).rem_euclid(60);
+        let db = dp % 12;
+        let mb = sc.get_month().get_earth_branch().get_index() as i64;
+        let bad = match v[0] {
+          0 => sc.get_duty().get_index() as i64 != md(db - mb, 12),
+          1 => sc.get_twelve_star().get_index() as i64 != md(db - qinglong(mb), 12),
+          4 => l.get_twenty_eight_star().get_index() as i64 != md(n + 11, 28) || (l.get_twenty_eight_star().get_seven_star().get_index() as i64) != md(n + 1, 7),
+          5 => sc.get_twenty_eight_star().get_index() as i64 != md(n + 11, 28),
+          6 => l.get_phase().get_index() as i64 != l.get_day() as i64 - 1,
+          7 => l.get_lunar_month().get_minor_ren().get_index() as i64 != md(l.get_lunar_month().get_month() as i64 - 1, 6),
+          8 => l.get_minor_ren().get_index() as i64 != md(l.get_lunar_month().get_month() as i64 - 1 + l.get_day() as i64 - 1, 6),
+          9 => { let m = l.get_lunar_month(); let yb = md(m.get_year() as i64 - 4, 12); let start = [8, 5, 2][(yb % 3) as usize];
+                 m.get_nine_star().get_index() as i64 != md(start - 1 - (m.get_index_in_year() as i64 % 12), 9) }
+          _ => false,
+        };
+        if bad { out = format!("{}-{}-{} (day number {})", day.get_year(), day.get_month(), day.get_day(), n); break 'scan; }
+        if v[0] == 2 || v[0] == 3 {
+          for h in [0usize, 1, 12, 22, 23] {
+            let hb = ((h as i64 + 1) / 2) % 12;
+            let rolled = if h >= 23 { (dp + 1) % 60 } else { dp };
+            let exp = md(hb - qinglong(rolled % 12), 12);
+            let got = if v[0] == 2 { LunarHour::from_ymd_hms(l.get_year(), l.get_month(), l.get_day(), h, 30, 0).get_twelve_star().get_index() as i64 }
+                      else { SolarTime::from_ymd_hms(day.get_year(), day.get_month(), day.get_day(), h, 30, 0).get_sixty_cycle_hour().get_twelve_star().get_index() as i64 };
+            if got != exp { out = format!("{}-{}-{} {}:30 spirit {} expected {}", day.get_year(), day.get_month(), day.get_day(), h, got, exp); break 'scan; }
+          }
+        }
+        day = day.next(1);
+      }
+      out
+    }
     "six_star" => {
       // month number, leap flag, day -> six star index on a real lunar day with these
       use tyme4rs::tyme::lunar::{LunarDay, LunarYear};
